@@ -25,7 +25,9 @@ type ACLCase struct {
 }
 
 var c01Names = []string{"a", "b", "dev/a", "dev/b", "prod/a", "a*", "a\nb", "_internal/x", "", "a", "dev/a", "a ", " dev/a"}
-var c01Patterns = []string{"*", "dev/*", "*a", "d*/a", "**", "", "a*", "*/*", "prod/*", "_internal/*", "a\n*", "b"}
+var c01Patterns = []string{"*", "dev/*", "*a", "d*/a", "**", "", "a*", "*/*", "prod/*", "_internal/*", "a\n*", "b",
+	// literal text on both sides of a '*' whose pieces would overlap in an existing name
+	"a*a", "prod/*/a", "dev/*/a", "dev/a*a", "b*b"}
 var c01Actions = []string{"get", "info", "put", "activate", "delete", "get", "info", "list", "Get", "*"}
 var c01Kinds = []string{"put", "activate", "delver", "del", "get", "getver", "cond", "info", "list", "get", "info"}
 
